@@ -1,12 +1,25 @@
 import Magog.Lemmas.UciFen
 import Magog.Lemmas.FenCount
 
-/-! The defect witness behind the extra UCI precondition of C17 (`PreF`'s FEN clause with `FenOk := OppSafe`):
-    the FEN loader accepts a position in which the side NOT to move is in check; the position is well-formed
-    (`Inv`), and `perft 3` on it panics: the generator emits the capture of the enemy king (Re1xe8), `MakeMove`
-    does not book it in any list, and two plies later the stale king square is read
-    ("Unexpected piece found: 0 at 116"). Hence `OpsTotal.fen` is false for every `G` on which perft is total
-    (`opsTotal_fen_false`), and `Inv` alone does not make perft total. -/
+/-! The defect witness behind the repair of the FEN loader, and what is left of it.
+
+    HISTORY (about the UNREPAIRED engine). The FEN loader accepted `4k3/8/8/8/8/8/8/4RK2 w - - 0 1`, a position in
+    which the side NOT to move is in check; the loaded position was well-formed (`Inv`), and `perft 3` on it
+    panicked: the generator emits the capture of the enemy king (Re1xe8), `MakeMove` does not book it in any list,
+    and two plies later the stale king square is read ("Unexpected piece found: 0 at 116"). This file used to prove
+    `fenCheckWitness_accepted` (accepted ∧ `Inv` ∧ ¬ `OppSafe` ∧ `perftDivide … 3` panics), hence
+    `opsTotal_modelOps_false : ¬ OpsTotal (modelOps …) G Legal` for every `G`, `Legal`, and
+    `fenCheckWitness_not_preF` (the line `position fen <witness>` fails `PreF … OppSafe`). These statements led to
+    the repair (`NewPositionFromFen` now rejects a FEN with the side not to move in check; model: `parseFen`) and
+    are FALSE about the repaired model; they have been removed.
+
+    NOW:
+    * `fenCheckWitness_rejected`: the loader rejects the witness in an orderly way;
+    * `checkWitness_perft_panics`: the same POSITION, built directly (`checkWitnessPos`; it is what the accepted
+      Black-to-move FEN loads, with the turn flipped — `checkWitnessPos_eq`), is still well-formed, not `OppSafe`,
+      and `perft 3` on it panics: `Inv` alone does not make perft total, `G := Inv ∧ OppSafe` cannot be weakened;
+    * a concrete session on `strOps` under the original precondition `SessionPre` (no FEN clause), in which the
+      witness line is answered with `invalid FEN` and the position is kept. -/
 
 namespace Magog.UciTotal
 open Magog Magog.Model
@@ -52,11 +65,31 @@ theorem perftDivide_error {kt : Killers} {cap : Nat} {p : Position} {depth : Nat
 
 /-! ### the witness, by kernel evaluation -/
 
-/-- accepted, well-formed, and the side not to move is in check -/
-def fenCheckWitnessB : Bool :=
-  match parseFen fenCheckWitness with
-  | .ok (.ok p) => invB p && !oppSafeB p
+/-- the repaired loader rejects the witness in an orderly way -/
+theorem fenCheckWitness_rejected :
+    parseFen fenCheckWitness = .ok (.error (.invalid "side not to move in check")) :=
+  FenLemmas.rejectedWith_iff.1 (by decide +kernel)
+
+/-- the witness position built directly: White Kf1 Re1, Black Ke8, WHITE to move -/
+def checkWitnessPos : Position :=
+  { board := ((List.range 128).map fun s =>
+      if s == Gen.E1 then Gen.WRook else if s == Gen.F1 then Gen.WKing else if s == Gen.E8 then Gen.BKing else 0).toArray,
+    blackPieces := [], whitePieces := [Gen.E1], blackPawns := [], whitePawns := [],
+    blackKing := Gen.E8, whiteKing := Gen.F1, flags := FWhiteTurn, ep := InvalidSq, ply := 0 }
+
+/-- it is what the (accepted) Black-to-move FEN loads, with the turn flipped -/
+def checkWitnessPosB : Bool :=
+  match parseFen (FenSpec.strBytes "4k3/8/8/8/8/8/8/4RK2 b - - 0 1") with
+  | .ok (.ok p) =>
+    p.board.toList == checkWitnessPos.board.toList && p.blackPieces == checkWitnessPos.blackPieces &&
+    p.whitePieces == checkWitnessPos.whitePieces && p.blackPawns == checkWitnessPos.blackPawns &&
+    p.whitePawns == checkWitnessPos.whitePawns && p.blackKing == checkWitnessPos.blackKing &&
+    p.whiteKing == checkWitnessPos.whiteKing && p.flags ||| FWhiteTurn == checkWitnessPos.flags &&
+    p.ep == checkWitnessPos.ep
   | _ => false
+
+set_option maxRecDepth 100000 in
+theorem checkWitnessPos_eq : checkWitnessPosB = true := by decide +kernel
 
 /-- the legal-move generator emits the capture of the king (e1 → e8), and the subtree below it panics -/
 def kingCapturePanicsB (p : Position) (depth : Nat) : Bool :=
@@ -83,16 +116,14 @@ theorem perftDivide_error_of_B {p : Position} {depth : Nat} (h : kingCapturePani
     · cases h
   · cases h
 
-def fenCheckWitnessPerftB : Bool :=
-  match parseFen fenCheckWitness with
-  | .ok (.ok p) => kingCapturePanicsB p 3
-  | _ => false
+set_option maxRecDepth 100000 in
+theorem checkWitnessPos_inv : invB checkWitnessPos = true := by decide +kernel
 
 set_option maxRecDepth 100000 in
-theorem fenCheckWitnessB_true : fenCheckWitnessB = true := by decide +kernel
+theorem checkWitnessPos_notSafe : oppSafeB checkWitnessPos = false := by decide +kernel
 
 set_option maxRecDepth 100000 in
-theorem fenCheckWitnessPerftB_true : fenCheckWitnessPerftB = true := by decide +kernel
+theorem checkWitnessPos_perft : kingCapturePanicsB checkWitnessPos 3 = true := by decide +kernel
 
 theorem not_oppSafe_of_B {p : Position} (h : oppSafeB p = false) : ¬ MM.OppSafe p := by
   intro hS
@@ -101,84 +132,55 @@ theorem not_oppSafe_of_B {p : Position} (h : oppSafeB p = false) : ¬ MM.OppSafe
   rw [hS] at h
   exact absurd h (by decide)
 
-/-- **The FEN loader accepts a position with the side not to move in check**; it is well-formed, and
-    `perft 3` on it panics. -/
-theorem fenCheckWitness_accepted : ∃ p, parseFen fenCheckWitness = .ok (.ok p) ∧ Inv p ∧ ¬ MM.OppSafe p ∧
-    (∃ e, perftDivide Killers.empty Gen.plyBufferCapacity p 3 = .error e) := by
-  have h1 := fenCheckWitnessB_true
-  have h2 := fenCheckWitnessPerftB_true
-  unfold fenCheckWitnessB at h1
-  unfold fenCheckWitnessPerftB at h2
-  cases hp : parseFen fenCheckWitness with
-  | error x => rw [hp] at h1; cases h1
-  | ok r =>
-    cases r with
-    | error x => rw [hp] at h1; cases h1
-    | ok p =>
-      rw [hp] at h1 h2
-      simp only [Bool.and_eq_true, Bool.not_eq_true'] at h1
-      exact ⟨p, rfl, inv_of_invB h1.1, not_oppSafe_of_B h1.2, perftDivide_error_of_B h2⟩
+/-- **`Inv` alone does not make perft total**: on a well-formed position with the side not to move in check
+    `perft 3` panics. (Such a position can no longer be loaded from a FEN, nor reached by legal moves.) -/
+theorem checkWitness_perft_panics : Inv checkWitnessPos ∧ ¬ MM.OppSafe checkWitnessPos ∧
+    (∃ e, perftDivide Killers.empty Gen.plyBufferCapacity checkWitnessPos 3 = .error e) :=
+  ⟨inv_of_invB checkWitnessPos_inv, not_oppSafe_of_B checkWitnessPos_notSafe,
+    perftDivide_error_of_B checkWitnessPos_perft⟩
 
-/-- consequently the `fen` clause of `OpsTotal` fails for the operations the driver runs, for EVERY `G` on which
-    `perft` is total: `OpsTotal (modelOps …) G Legal` is unprovable, whatever `G` and `Legal` -/
-theorem opsTotal_modelOps_false {blend : Blend} {tostr : Position → M Bytes} {G : Position → Prop}
-    {Legal : Position → Move → Prop} : ¬ OpsTotal (modelOps blend tostr) G Legal := by
-  intro ho
-  obtain ⟨p, hp, _, _, e, he⟩ := fenCheckWitness_accepted
-  obtain ⟨r, hr⟩ := ho.perft p 3 (ho.fen _ p hp) (by decide) (by decide)
-  have : perftDivide Killers.empty Gen.plyBufferCapacity p 3 = .ok r := hr
-  rw [he] at this
-  cases this
-
-/-- closed operations with the driver's string library (only `str` matters for `positionPart` / `fenArg`) -/
+/-- closed operations with the driver's string library: the real string functions, start position, FEN loader and
+    `applyUciMove`; evaluation and perft are stubs (their totality on good positions is proved in Lemmas/Total.lean) -/
 def strOps : EngineOps :=
   { str := goStrEnv, startPos := startPosition, evalOp := fun _ => pure 0, perftDivOp := fun _ _ => pure [],
     tperftDivOp := fun _ _ => pure [], applyMove := applyUciMove, tostrOp := fun _ => pure [] }
 
-/-- with the precondition on the line the witness is simply excluded: `position fen <witness>` does not satisfy
-    `PreF … OppSafe` (for any operations using the driver's string library) -/
-theorem fenCheckWitness_not_preF {ops : EngineOps} {Legal : Position → Move → Prop} {st : UciState}
-    (hstr : ops.str = goStrEnv) :
-    ¬ PreF ops Legal MM.OppSafe st (FenSpec.strBytes "position fen 4k3/8/8/8/8/8/8/4RK2 w - - 0 1") := by
-  intro h
-  obtain ⟨p, hp, _, hn, _⟩ := fenCheckWitness_accepted
-  have hs : ops.str = strOps.str := hstr
-  refine hn (h.2 (by decide +kernel) (FenSpec.strBytes "fen 4k3/8/8/8/8/8/8/4RK2 w - - 0 1") fenCheckWitness p ?_ ?_ hp)
-  · rw [positionPart_str hs, hs]
-    decide +kernel
-  · rw [fenArg_str hs]
-    decide +kernel
+/-! ### non-vacuity of `Pre` / `SessionPre` / `uciRun_total` with `Legal := LegalGen`: a concrete session
 
-/-! ### non-vacuity of `PreF` / `SessionPreF` / `uciRun_total_F`: a concrete session
+The session has legal move lists (double pushes, castling) after `startpos` and after a FEN, a rejected FEN followed
+by moves, malformed lines, random bytes, the accepted Black-to-move FEN (side to move in check) and the former
+witness line (now answered with `invalid FEN`). No condition on the FENs. -/
 
-`strOps`: the real string functions, start position, FEN loader and `applyUciMove`; evaluation and perft are stubs
-(their totality on good positions is the hypothesis of `modelOps_opsTotalF`). Legality is `LegalGen` (through the
-generator), loaded positions must be `OppSafe`. The session has legal move lists (double pushes, castling) after
-`startpos` and after a FEN, a rejected FEN followed by moves, malformed lines and random bytes. -/
-
-theorem strOps_totalF : OpsTotalF strOps GoodPos LegalGen MM.OppSafe :=
-  ⟨goodPos_start, fun _ _ h hS => goodPos_of_fen h hS, fun _ _ => ⟨0, rfl⟩, fun _ _ _ _ _ => ⟨[], rfl⟩,
+theorem strOps_total : OpsTotal strOps GoodPos LegalGen :=
+  ⟨goodPos_start, fun _ _ h => goodPos_of_fen h, fun _ _ => ⟨0, rfl⟩, fun _ _ _ _ _ => ⟨[], rfl⟩,
     fun _ _ _ _ _ => ⟨[], rfl⟩, fun _ _ hg hl => applyUciMove_good hg hl⟩
 
 def fenSession : List Bytes :=
   [FenSpec.strBytes "eval", FenSpec.strBytes "position startpos moves e2e4 e7e5 g1f3",
    FenSpec.strBytes "position fen r3k2r/8/8/8/8/8/8/R3K2R w KQkq - 0 1 moves e1g1 e8c8",
    FenSpec.strBytes "position garbage moves e2e4", FenSpec.strBytes "perft 2", [255, 0, 300, 32, 9],
-   FenSpec.strBytes "position fen 4k3/8/8/8/8/8/8/4RK2 b - - 0 1", FenSpec.strBytes "go depth"]
+   FenSpec.strBytes "position fen 4k3/8/8/8/8/8/8/4RK2 b - - 0 1",
+   FenSpec.strBytes "position fen 4k3/8/8/8/8/8/8/4RK2 w - - 0 1 moves e1e8", FenSpec.strBytes "go depth"]
 
 set_option maxRecDepth 100000 in
-theorem fenSession_pre : SessionPreF strOps LegalGen MM.OppSafe UciState.init fenSession :=
-  sessionPreF_of_B (kt := Killers.empty) (f := oppSafeB) (fun _ h => oppSafe_of_B h) fenSession UciState.init
-    (by decide +kernel)
+theorem fenSession_pre : SessionPre strOps LegalGen UciState.init fenSession :=
+  sessionPre_of_genB (kt := Killers.empty) fenSession UciState.init (by decide +kernel)
 
 example : ∃ st' outs, uciRun strOps UciState.init fenSession = .ok (st', outs) ∧ StateOk GoodPos st' ∧
     outs.length = fenSession.length :=
-  uciRun_total_F strOps_totalF fenSession UciState.init (stateOk_init _) fenSession_pre
+  uciRun_total strOps_total fenSession UciState.init (stateOk_init _) fenSession_pre
 
-/-- the Boolean test of the precondition is not vacuous: it rejects the witness line, and an illegal move -/
-example : preFB strOps Killers.empty oppSafeB UciState.init
-    (FenSpec.strBytes "position fen 4k3/8/8/8/8/8/8/4RK2 w - - 0 1") = false := by decide +kernel
-example : preFB strOps Killers.empty oppSafeB UciState.init
+/-- the former witness line (with a move list after the FEN) is answered with `invalid FEN: …` and nothing else;
+    by `doPosition_keeps_old` (C17.position_keeps_old) the state is then what it was and the moves are not applied -/
+def witnessLineAnswerB : Bool :=
+  match uciStep strOps UciState.init (FenSpec.strBytes "position fen 4k3/8/8/8/8/8/8/4RK2 w - - 0 1 moves e1e8") with
+  | .ok (_, [.invalidFen e]) => e == .invalid "side not to move in check"
+  | _ => false
+
+example : witnessLineAnswerB = true := by decide +kernel
+
+/-- the Boolean test of the precondition is not vacuous: it rejects an illegal move -/
+example : preFB strOps Killers.empty (fun _ => true) UciState.init
     (FenSpec.strBytes "position startpos moves e2e4 e1e8") = false := by decide +kernel
 
 end Magog.UciTotal
